@@ -13,3 +13,4 @@ cd /verif/sim
 if ! cargo build --release --offline >/tmp/kv/mutant-build.log 2>&1; then grep -E "^error" -A6 /tmp/kv/mutant-build.log | head -12; echo "MUTANT DOES NOT COMPILE"; git -C /repo checkout -- .; exit 4; fi
 cd /verif && timeout 600 ./sim/target/release/kverif check "$ID" --cases "$CASES" --no-evidence 2>&1 | grep -E "^oracle|VIOLATION|quick:" | cut -c1-300
 git -C /repo checkout -- . 
+(cd /verif/sim && cargo build --release --offline >/dev/null 2>&1)
